@@ -96,4 +96,71 @@ theorem chainNumbers_matches_source (g count n : Nat) (hc : 0 < count) :
       · omega
       · simp [h3, h4] at h2
 
+/-! ### decision trees: which exit the source takes under which conditions (`"kind": "tree"`)
+
+`Gen.Src.c19…Tree` are the nested `if`s of the function bodies with the terminating statements numbered in source
+order.  Trees exist only for bodies with exits; `SortedKeyMap.Set` and `ReportTracker.updateBlock` decide whether an
+ASSIGNMENT happens (no exit: their trees have a single leaf) and `BlockBroadcaster.run` / `Listener.run` are `select`
+loops — these three stay with the expression ties above (`set_`, `onBlock_`, `chainNumbers_matches_source`). -/
+
+/-- `Transmit`: exits 1, 2 = a gob encoding error (never for the model's transmits), 3 = `return fmt.Errorf("report
+    already transmitted")` when the key is in the index, 4 = `return nil`; `c19TransmitTreeVal` is 1 where the source
+    returns an error and 0 where it returns `nil`.  The model's answer is `true` exactly where the source returns
+    `nil`, it queues and records the transmit exactly at exit 4, and an encoding error never ends in `nil`. -/
+theorem transmit_tree_matches_source (tl : TL) (t : Transmit) :
+    let found := tl.transmitted.any (sameKey t)
+    (tl.transmit t).2 = decide (Gen.Src.c19TransmitTreeVal false found (Gen.Src.c19TransmitTree false found) = 0) ∧
+    (tl.transmit t).1 =
+      (if Gen.Src.c19TransmitTree false found = 4
+       then { queue := tl.queue ++ [t], transmitted := tl.transmitted ++ [t] } else tl) ∧
+    ∀ f, Gen.Src.c19TransmitTreeVal true f (Gen.Src.c19TransmitTree true f) = 1 := by
+  intro found
+  refine ⟨?_, ?_, by intro f; simp [Gen.Src.c19TransmitTree, Gen.Src.c19TransmitTreeVal]⟩
+  · unfold TL.transmit Gen.Src.c19TransmitTree Gen.Src.c19TransmitTreeVal
+    cases h : tl.transmitted.any (sameKey t) <;> simp [found, h]
+  · unfold TL.transmit Gen.Src.c19TransmitTree
+    cases h : tl.transmitted.any (sameKey t) <;> simp [found, h]
+
+/-- `Load`: exit 1 = the early `return` on an empty queue (the block gets no perform transaction); otherwise the body
+    runs to its end (exit 0) whether or not there is a progress telemetry -/
+theorem load_tree_matches_source (tl : TL) (hasProgress : Bool) :
+    (tl.load).2.isEmpty = decide (Gen.Src.c19LoadTree tl.queue.length hasProgress = 1) ∧
+    (Gen.Src.c19LoadTree tl.queue.length hasProgress = 1 ∨ Gen.Src.c19LoadTree tl.queue.length hasProgress = 0) := by
+  unfold Gen.Src.c19LoadTree
+  cases h : tl.queue <;> cases hasProgress <;> simp [TL.load, h]
+
+/-- `GetLatestEvents`: exit 1 = `return nil, nil` before the first block; exit 2 = `return events, nil` after the
+    look-back loop -/
+theorem latestEvents_tree_matches_source (reports : List (List String)) (rt : RT) :
+    rt.latestEvents reports =
+      if Gen.Src.c19LatestEventsTree rt.latest.isNone = 1 then []
+      else match rt.latest with
+        | none => []
+        | some l =>
+          (rt.blockEvents.keysDesc reportTrackerBlockRange).flatMap fun k =>
+            match rt.blockEvents.get k with
+            | some (blk, ts) => ts.flatMap (pluginEvents reports l blk)
+            | none => [] := by
+  unfold RT.latestEvents Gen.Src.c19LatestEventsTree
+  cases rt.latest with
+  | none => simp
+  | some l => simp only [Option.isNone_some]; rfl
+
+/-- `createPluginTransmitEvents`: exit 1 = `return nil, err` when the report does not decode (the model: a report
+    without work ids), exit 2 = `return events, nil` with one event per check result of the report -/
+theorem pluginEvents_tree_matches_source (decodeFails : Bool) (ws : List String) (latest : Block) (blk : Nat)
+    (t : Transmit) (ht : t.rep = 0) :
+    pluginEvents [if decodeFails then [] else ws] latest blk t =
+      if Gen.Src.c19PluginEventsTree decodeFails = 1 then []
+      else ws.map fun w =>
+        { wid := w, block := blk, conf := confirmations latest.number blk, rep := t.rep, round := t.round } := by
+  unfold pluginEvents Gen.Src.c19PluginEventsTree
+  cases decodeFails <;> simp [ht]
+
+/-- `SortedKeyMap.Get`: exit 1 = `return v, ok` for a bound key, exit 2 = `return getZero[T](), false` -/
+theorem get_tree_matches_source {α} (m : SKM α) (k : String) :
+    m.get k = if Gen.Src.c19GetTree (m.vals.lookup k).isSome = 1 then m.vals.lookup k else none := by
+  unfold SKM.get Gen.Src.c19GetTree
+  cases m.vals.lookup k <;> simp
+
 end AutoVerif.C19
